@@ -638,3 +638,226 @@ Proof.
       assert (Hab : a <= b) by lia.
       rewrite (rs_add_total (s_retx x) _ a b A3 Hab Hdis). lia.
 Qed.
+
+(** An acknowledged frame of a stream that was not reset. *)
+Lemma bufok_ack L L' k id a b fin x :
+  log_get k L = Some ((id, a, b, fin), L') -> BufOK L id x -> x.(s_state) <> 3 ->
+  exists x1, sb_ack a b x = Some x1
+    /\ BufOK L' id x1
+    /\ ucontrib (Some x1) = ucontrib (Some x) - (b - a)
+    /\ b - a <= ucontrib (Some x)
+    /\ (x1.(s_ulen) = 0 -> x1.(s_acks) = []).
+Proof.
+  intros G [A B C D F] Hs. destruct (log_get_spec _ _ _ _ G) as (Hl & Bl & Cl).
+  destruct (D _ _ _ _ Hl) as (Fa & Fb).
+  destruct (F Hs) as [A1 A2 A3 A4 A5 A6 A7 A8 A9 A10].
+  unfold base in *. set (bs := s_offset x - s_ulen x) in *.
+  set (acks1 := rs_add a b (s_acks x)).
+  assert (Hdis : forall y, a <= y < b -> ~ covers (s_acks x) y)
+    by (intros y Hy Hc; exact (A7 _ _ _ _ y Hl Hy Hc)).
+  assert (Hab : a <= b) by lia.
+  assert (Hcov : forall y, covers acks1 y <-> covers (s_acks x) y \/ a <= y < b)
+    by (intros y; apply rs_add_covers).
+  assert (Htot : rs_total acks1 = rs_total (s_acks x) + (b - a)).
+  { unfold acks1. eapply rs_add_total; [exact A1|exact Hab|exact Hdis]. }
+  assert (W0 : W bs (s_acks x)) by (eapply W_weaken; [|exact A1]; lia).
+  assert (W1 : W bs acks1).
+  { unfold acks1, rs_add. destruct (a <? b) eqn:E; [|exact W0].
+    apply rs_insert_W; [lia| |exact W0]. apply (A5 _ _ _ _ Hl). lia. }
+  assert (Hsame : rs_add (Z.max bs a) (Z.max bs b) (s_acks x) = acks1).
+  { unfold acks1. destruct (a <? b) eqn:E.
+    - assert (bs <= a) by (apply (A5 _ _ _ _ Hl); lia).
+      replace (Z.max bs a) with a by lia. replace (Z.max bs b) with b by lia. reflexivity.
+    - unfold rs_add. rewrite E. destruct (Z.max bs a <? Z.max bs b) eqn:E2; [lia|reflexivity]. }
+  assert (Hhi1 : forall y, covers acks1 y -> y < s_unsent x).
+  { intros y Hc. apply Hcov in Hc. destruct Hc as [Hc|Hc]; [auto|lia]. }
+  destruct (pop_acked_spec bs (s_ulen x) acks1 W1) as (ulen' & acks' & P & Pr & PW & Pt & Pc & Pp).
+  { intros y Hc. specialize (Hhi1 y Hc). lia. }
+  { lia. }
+  set (d := s_ulen x - ulen') in *.
+  exists (set_s_acks acks' (set_s_ulen ulen' x)).
+  split; [unfold sb_ack; fold bs; rewrite Hsame, P; reflexivity|].
+  assert (Hbu : bs + d <= s_unsent x).
+  { destruct (Z.eq_dec d 0); [lia|].
+    assert (covers acks1 (bs + d - 1)) by (apply Pp; lia). specialize (Hhi1 _ H). lia. }
+  assert (Hfl : 0 <= flen id L').
+  { apply flen_nonneg. intros j a' b' f' Hl'. apply Bl in Hl'. destruct Hl' as (Hl' & _).
+    destruct (D _ _ _ _ Hl'). lia. }
+  assert (Hrt : 0 <= rs_total (s_retx x)) by (eapply rs_total_nonneg; exact A3).
+  split; [|split; [|split]].
+  - constructor; unfold base; autorewrite with st; fold bs; try lia.
+    + intros j a' b' fin' Hl'. apply (D j a' b' fin'). apply Bl in Hl'. tauto.
+    + intros _.
+      constructor; unfold base; autorewrite with st;
+        replace (s_offset x - ulen') with (bs + d) by (unfold bs, d; lia).
+      * exact PW.
+      * intros y Hc. apply Pc in Hc. apply Hhi1. tauto.
+      * apply (W_raise bs); [exact A3|].
+        intros y Hy Hc. assert (Hc1 : covers acks1 y) by (apply Pp; lia).
+        apply Hcov in Hc1. destruct Hc1 as [Hc1|Hc1]; [exact (A6 y Hc1 Hc)|exact (A8 _ _ _ _ y Hl Hc1 Hc)].
+      * exact A4.
+      * intros j a' b' fin' Hl' Hlt. apply Bl in Hl'. destruct Hl' as (Hl' & Hj).
+        pose proof (A5 _ _ _ _ Hl' Hlt) as Hge.
+        destruct (Z_lt_dec a' (bs + d)); [|lia]. exfalso.
+        assert (Hc1 : covers acks1 a') by (apply Pp; lia).
+        apply Hcov in Hc1. destruct Hc1 as [Hc1|Hc1].
+        -- exact (A7 _ _ _ _ a' Hl' ltac:(lia) Hc1).
+        -- exact (A9 _ _ _ _ _ _ _ _ a' Hl' Hl Hj ltac:(lia) Hc1).
+      * intros y Hc Hr. apply Pc in Hc. destruct Hc as (Hc & _). apply Hcov in Hc.
+        destruct Hc as [Hc|Hc]; [exact (A6 y Hc Hr)|exact (A8 _ _ _ _ y Hl Hc Hr)].
+      * intros j a' b' fin' y Hl' Hy Hc. apply Bl in Hl'. destruct Hl' as (Hl' & Hj).
+        apply Pc in Hc. destruct Hc as (Hc & _). apply Hcov in Hc.
+        destruct Hc as [Hc|Hc]; [exact (A7 _ _ _ _ y Hl' Hy Hc)|exact (A9 _ _ _ _ _ _ _ _ y Hl' Hl Hj Hy Hc)].
+      * intros j a' b' fin' y Hl' Hy Hc. apply Bl in Hl'. destruct Hl' as (Hl' & Hj).
+        exact (A8 _ _ _ _ y Hl' Hy Hc).
+      * intros j j' a1 b1 f1 a2 b2 f2 y H1 H2. apply Bl in H1. apply Bl in H2.
+        destruct H1 as (H1 & _). destruct H2 as (H2 & _). eapply A9; eauto.
+      * rewrite Cl. cbn [fcontrib]. rewrite Z.eqb_refl. rewrite Pt, Htot. fold d. lia.
+  - cbn [ucontrib]. autorewrite with st. destruct (s_state x =? 3) eqn:E3; [lia|].
+    rewrite Pt, Htot. fold d. lia.
+  - cbn [ucontrib]. destruct (s_state x =? 3) eqn:E3; [lia|].
+    pose proof (flen_live_le id L k a b fin (fun k' a' b' f' Hl' => proj2 (proj1 (D k' a' b' f' Hl'))) Hl).
+    lia.
+  - autorewrite with st. intros Hz. eapply (W_hi_empty (bs + d + 1) (s_unsent x)); [exact PW| |].
+    + intros y Hc. apply Pc in Hc. apply Hhi1. tauto.
+    + subst. unfold d, bs in *. lia.
+Qed.
+
+Lemma hinv_remove L s g id x :
+  HInvL L s g -> NoDup (keys s.(send)) -> lookup id s.(send) = Some (Some x) ->
+  ucontrib (Some x) = 0 ->
+  HInvL L (set_send (remove id s.(send)) s) g.
+Proof.
+  intros [A B C D] N Lk Hu. constructor; unfold get_next in *; autorewrite with st.
+  - intros k y Ly. destruct (Z.eq_dec k id) as [->|Hn].
+    + rewrite lookup_remove_eq in Ly by exact N. discriminate.
+    + rewrite lookup_remove_neq in Ly by exact Hn. apply A. exact Ly.
+  - intros k i a b fin Hl. destruct (B k i a b fin Hl) as (B1 & B2 & B3).
+    split; [exact B1|]. split; [|exact B3].
+    destruct (Z.eq_dec i id) as [->|Hn].
+    + rewrite lookup_remove_eq by exact N. discriminate.
+    + rewrite lookup_remove_neq by exact Hn. exact B2.
+  - unfold usum in *. rewrite msum_remove, Lk. lia.
+  - intros Hp k y Ly. destruct (Z.eq_dec k id) as [->|Hn].
+    + rewrite lookup_remove_eq in Ly by exact N. discriminate.
+    + rewrite lookup_remove_neq in Ly by exact Hn. apply (D Hp k). exact Ly.
+Qed.
+
+Lemma hinv_phase2 L s g :
+  HInvL L s g -> HInvL L s (mkGhost 2 g.(g_par) g.(g_md) g.(g_msd) g.(g_ms) g.(g_closed)).
+Proof. intros [A B C D]. constructor; auto. cbn. intros Hc. exfalso. apply Hc. reflexivity. Qed.
+
+Lemma hinv_ghost L s g g' : g_phase g' = 2 -> HInvL L s g -> HInvL L s g'.
+Proof. intros Hp [A B C D]. constructor; auto. intros Hc. contradiction. Qed.
+
+(** Changing the log and the entry of the stream concerned at once. *)
+Lemma hinv_relog L L' s g id x y du :
+  HInvL L s g -> lookup id s.(send) = Some (Some x) ->
+  (forall i, i <> id -> feq i L L') ->
+  (forall k i a b fin, live L' k (i, a, b, fin) -> live L k (i, a, b, fin) \/ i = id) ->
+  (0 <= id /\ (id_init id = s.(side) -> id_index id < get_next (id_dir id) s)) ->
+  BufOK L' id y -> ucontrib (Some y) = ucontrib (Some x) + du ->
+  (g.(g_phase) <> 2 -> y.(s_acks) = [] /\ y.(s_retx) = [] /\ y.(s_ulen) = y.(s_offset)) ->
+  HInvL L' (set_unacked_data (s.(unacked_data) + du) (put id y s)) g.
+Proof.
+  intros [A B C D] Lk Hfe Hsub Hid Hb Hu He. constructor.
+  - intros k z Lz. autorewrite with st in Lz. rewrite lookup_put in Lz.
+    destruct (k =? id) eqn:E.
+    + assert (k = id) by lia. subst k. rewrite Lk in Lz. injection Lz as <-. exact Hb.
+    + eapply bufok_feq; [apply Hfe; lia|]. apply A. exact Lz.
+  - intros k i a b fin Hl. autorewrite with st. rewrite lookup_put.
+    unfold get_next, put. autorewrite with st. fold (get_next (id_dir i) s).
+    destruct (Hsub _ _ _ _ _ Hl) as [Hl0|Hi].
+    + destruct (B k i a b fin Hl0) as (B1 & B2 & B3). split; [exact B1|]. split; [|exact B3].
+      destruct (i =? id); [rewrite Lk; discriminate|exact B2].
+    + subst i. rewrite Z.eqb_refl, Lk. split; [tauto|]. split; [discriminate|tauto].
+  - autorewrite with st. rewrite (usum_put id (Some x) y s Lk). lia.
+  - intros Hp k z Lz. autorewrite with st in Lz. rewrite lookup_put in Lz.
+    destruct (k =? id) eqn:E.
+    + rewrite Lk in Lz. injection Lz as <-. apply He. exact Hp.
+    + apply (D Hp k). exact Lz.
+Qed.
+
+Lemma take_sub L L' k f :
+  log_get k L = Some (f, L') ->
+  forall j i a b fin, live L' j (i, a, b, fin) -> live L j (i, a, b, fin) \/ i = fst (fst (fst f)).
+Proof.
+  intros G j i a b fin Hl. destruct (log_get_spec _ _ _ _ G) as (_ & Bl & _).
+  left. apply Bl in Hl. tauto.
+Qed.
+
+Lemma live_id_facts L s g k id a b fin :
+  HInvL L s g -> live L k (id, a, b, fin) ->
+  0 <= id /\ (id_init id = s.(side) -> id_index id < get_next (id_dir id) s).
+Proof. intros H Hl. destruct (h_frames _ _ _ H _ _ _ _ _ Hl) as (B1 & _ & B3). auto. Qed.
+
+(** [received_ack_of] after the frame was taken out of the log. *)
+Lemma ack_hinv L L' k id a b fin s g s' r :
+  log_get k L = Some ((id, a, b, fin), L') -> HInvL L s g -> NoDup (keys s.(send)) ->
+  g.(g_phase) = 2 ->
+  do_ack (id, a, b, fin) (set_log L' s) = Some (s', r) ->
+  HInvL L' s' g /\ log s' = L'.
+Proof.
+  intros G H N Hp F. unfold do_ack, ok in F. autorewrite with st in F.
+  destruct (log_get_spec _ _ _ _ G) as (Hl & _ & _).
+  assert (H0 : forall t, hcore t = hcore s -> (forall x, lookup id (send s) = Some (Some x) -> BufOK L' id x) -> HInvL L' t g).
+  { intros t Ht Hb. eapply HInvL_ext; [symmetry; exact Ht|]. eapply hinv_take; eauto. }
+  destruct (lookup id (send s)) as [[x|]|] eqn:Lk.
+  2:{ injection F as <- _. split; [apply H0; [hcore_eq|intros x Hx; discriminate]|autorewrite with st; reflexivity]. }
+  2:{ injection F as <- _. split; [apply H0; [hcore_eq|intros x Hx; discriminate]|autorewrite with st; reflexivity]. }
+  pose proof (h_buf _ _ _ H id x Lk) as Hb.
+  destruct (s_state x =? 3) eqn:E3.
+  { injection F as <- _. split; [|autorewrite with st; reflexivity].
+    apply H0; [hcore_eq|]. intros y Hy. injection Hy as <-. eapply bufok_take_reset; eauto. lia. }
+  destruct (bufok_ack _ _ _ _ _ _ _ _ G Hb ltac:(lia)) as (x1 & SA & Hb1 & Hu1 & Hle & Hz).
+  destruct (b <? a); [discriminate|]. destruct (unacked_data s <? b - a) eqn:Eu; [discriminate|].
+  rewrite SA in F.
+  destruct (sb_ack_credit _ _ _ _ SA) as (_ & _ & Est).
+  pose proof (b_state _ _ _ Hb) as Hsr.
+  (* the stream with its buffer updated (any non-reset state) *)
+  assert (Hput : forall y, buf_eq x1 y -> 0 <= s_state y <= 3 -> s_state y <> 3 ->
+            HInvL L' (put id y (set_unacked_data (unacked_data s - (b - a)) (set_log L' s))) g
+            /\ lookup id (send (put id y (set_unacked_data (unacked_data s - (b - a)) (set_log L' s)))) = Some (Some y)).
+  { intros y Hy Hr Hn3. split.
+    - eapply HInvL_ext; [|apply (hinv_relog L L' s g id x y (- (b - a)) H Lk)].
+      + unfold hcore, put. autorewrite with st.
+        replace (unacked_data s + - (b - a)) with (unacked_data s - (b - a)) by lia. reflexivity.
+      + intros i Hi. eapply feq_take_other; [exact G|congruence].
+      + intros j i a' b' fin' Hl'. left. destruct (log_get_spec _ _ _ _ G) as (_ & Bl & _). apply Bl in Hl'. tauto.
+      + eapply live_id_facts; eauto.
+      + eapply bufok_eq; [exact Hy|exact Hr| |exact Hb1]. intros _. rewrite Est. lia.
+      + destruct Hy as (Y1 & Y2 & Y3 & Y4 & Y5). cbn [ucontrib] in *.
+        rewrite Y2, Y4. rewrite Est in Hu1. rewrite E3 in *.
+        destruct (s_state y =? 3) eqn:Ey; [lia|]. lia.
+      + intros Hc. lia.
+    - rewrite lookup_put. autorewrite with st. rewrite Z.eqb_refl, Lk. reflexivity. }
+  set (s0 := set_unacked_data (unacked_data s - (b - a)) (set_log L' s)) in *.
+  assert (Hlog : forall y, log (put id y s0) = L') by (intros y; unfold put, s0; autorewrite with st; reflexivity).
+  destruct ((s_state x1 =? 1) || (s_state x1 =? 2)) eqn:Eds.
+  - set (y := set_s_state (if (s_state x1 =? 2) || fin then 2 else 1) x1) in *.
+    assert (Hy : buf_eq x1 y) by (subst y; sb).
+    assert (Hyr : 0 <= s_state y <= 3 /\ s_state y <> 3) by (subst y; autorewrite with st; destr_if; lia).
+    destruct (Hput y Hy (proj1 Hyr) (proj2 Hyr)) as (Hp1 & Lp1).
+    destruct (((s_state x1 =? 2) || fin) && (s_ulen y =? 0)) eqn:Efin.
+    + (* finished and fully acknowledged: the stream is removed *)
+      destruct (stream_freed _) as [s2|] eqn:SF; [|discriminate].
+      injection F as <- _.
+      assert (Hrem : HInvL L' (set_send (remove id (send (put id y s0))) (put id y s0)) g).
+      { apply (hinv_remove L' (put id y s0) g id y Hp1).
+        - unfold put. autorewrite with st. rewrite keys_update. unfold s0. autorewrite with st. exact N.
+        - exact Lp1.
+        - cbn [ucontrib]. destruct (s_state y =? 3); [reflexivity|].
+          assert (s_ulen y = 0) by lia. destruct Hy as (_ & Y2 & _ & Y4 & _).
+          rewrite Y4, Hz by lia. cbn. lia. }
+      unfold stream_freed in SF. destruct (send_streams _ <? 1); [discriminate|]. injection SF as <-.
+      split; [|unfold s0; autorewrite with st; reflexivity].
+      eapply HInvL_ext; [|exact Hrem].
+      unfold hcore, put, s0. autorewrite with st.
+      assert (remove id (update id (Some y) (send s)) = remove id (send s)) as ->.
+      { clear. induction (send s) as [|[q w] t IH]; cbn [update remove]; [reflexivity|].
+        destruct (q =? id) eqn:E; cbn [remove]; rewrite E; [reflexivity|]. f_equal. exact IH. }
+      reflexivity.
+    + injection F as <- _. split; [exact Hp1|apply Hlog].
+  - injection F as <- _.
+    destruct (Hput x1 ltac:(sb) ltac:(lia) ltac:(lia)) as (Hp1 & _). split; [exact Hp1|apply Hlog].
+Qed.
